@@ -185,3 +185,4 @@ TECHNIQUE = 'runtime oracle: layout-set membership matcher (reference semantics 
 LEVEL_TEXT = ('Every document term up to 5 nodes (thorough 6, sampled 1:4 at size 6) and random larger ones are built through the public combinators and laid out by the real engine under both strategies '
               'at boundary-directed widths and several ribbon fractions; a reference matcher decides whether the emitted stream is in the layout set the term denotes, and the renderer and annotation nesting are checked on every stream.')
 LEVEL_NOTE = 'Trusts vlib/refsem.py as the reading of the statement (strict) - validated by mutation of the engine; widths/fractions are sampled per term, not exhaustive.'
+ANCHORS = ['layout.best_layout', 'layout.smart_fitting_predicate', 'layout.fast_fitting_predicate', 'doctypes.Concat.normalize', 'doctypes.Nest.normalize', 'doctypes.Group.normalize', 'doctypes.AlwaysBreak.normalize', 'doctypes.Fill.normalize', 'doctypes.FlatChoice.normalize', 'doc.align.<locals>.evaluator', 'render.default_render_to_stream']
